@@ -389,7 +389,7 @@ theorem inv_step (sch : Sch) (m : Mode) (s : Res × Ctx) (x : Step) (h : Inv sch
   | leave ids => exact h
   | setCtx ctx => exact h
   | wild a pc n => exact inv_wild m a pc n h
-  | nsRead n => exact h
+  | nsRead n => exact inv_unstale h
   | memoCall k =>
     simp only [step]
     split
